@@ -1,6 +1,7 @@
 package props
 
 import (
+	"os"
 	"bytes"
 	"context"
 	"errors"
@@ -390,6 +391,10 @@ func TestC01(t *testing.T) {
 		})
 		return
 	}
+	if os.Getenv("VERIF_ONLY") == "real-early" { // development aid
+		c01RealEarly(c)
+		return
+	}
 	if thorough {
 		c.Bound("alphabet", "z,a,b,p-,p,p+ (+t-,t,t+ at every position of length 3; G-,G,G+ in length 2)")
 		c.Bound("max_sequence_length", 4)
@@ -422,5 +427,6 @@ func TestC01(t *testing.T) {
 	c01Sched(t, c, thorough)
 	if thorough {
 		c01Real(c)
+		c01RealEarly(c)
 	}
 }
